@@ -384,7 +384,7 @@ def gen_map(tier, rng, n):
             ent = "safe"
         out.append({"op": "x_map", "src": src, "map": mp, "inv": inv, "cs": rng.choice([1, 2, 3, 1 << 20]),
                     "mdtype": "int64" if inv > 2 ** 31 else rng.choice(["int32", "int64"]), "entry": ent,
-                    "empty": rng.choice([None, None, "py", "np"])})
+                    "empty": rng.choice([None, None, "py", "np", "0d"]), "invform": rng.choice(["py", "py", "np", "0d"])})
     return out
 
 
@@ -1121,11 +1121,18 @@ def do_map(e, case):
     m = np.array(case["map"], dtype=case["mdtype"])
     inv, ent = case["inv"], case["entry"]
     flt = m != inv
+    if case.get("invform") == "np":         # the marker as a numpy scalar of the map's dtype / as a 0-d array
+        inv = m.dtype.type(inv)
+    elif case.get("invform") == "0d":
+        inv = np.array(inv, dtype=m.dtype)
     if ent == "safe":
         a = arr(e, src)
         ev = None
         if case.get("empty") and src["k"] == "num":
-            ev = a.dtype.type(1) if case["empty"] == "np" else (1.0 if src["dt"] in FLOAT_DTYPES else True if src["dt"] == "bool" else 1)
+            ev = a.dtype.type(1) if case["empty"] == "np" else np.array(1, dtype=a.dtype) if case["empty"] == "0d" else \
+                (1.0 if src["dt"] in FLOAT_DTYPES else True if src["dt"] == "bool" else 1)
+        elif case.get("empty") and src["k"] == "fixed":
+            ev = b"z"       # (a numpy.bytes_ scalar is not generated: numba cannot unbox it - TypeError at the call, whatever the kernel)
         return cv(e, ops.safe_map_values(a, m, flt, ev) if ev is not None else ops.safe_map_values(a, m, flt))
     if ent == "map_valid":
         return cv(e, ops.map_valid(arr(e, src), m, invalid=inv))
@@ -1674,6 +1681,10 @@ def match_one(case, a, b, mode):
         # NC11b: apply_spans_last subtracts 1 from the uint64 span array: float64 under numba, which cannot subscript
         if isinstance(a, dict) and a.get("err") == "other:TypingError" and isinstance(b, dict) and "err" not in b:
             return "NC11b"
+    if op == "x_map" and case.get("entry") in ("stream", "stream_indexed") and case.get("invform") == "0d":
+        # NC11c: the streamed mapping drivers pass the marker into compiled kernels that unify it with map elements
+        if isinstance(a, dict) and a.get("err") == "other:TypingError" and isinstance(b, dict) and "err" not in b:
+            return "NC11c"
     return None
 
 
